@@ -20,7 +20,10 @@ CONSTANTS
   OPS = {"clone", "collect", "downgrade", "drop", "dropw", "new", "put", "sat", "unwrap", "upgrade"}
   AUTOF = TRUE
   AUTO0 = FALSE
-  SZ = 152
+  SZ = 160
+  CLEAN = FALSE
+  MaxActs = 0
+  BUG_CLEAN_REENTRANT = FALSE
 INVARIANT NoViolation
 INVARIANT StructInv
 VIEW View
